@@ -958,8 +958,8 @@ func (bmach *Bondmachine) Dot(conf *Config, prefix string, vm *VM, oldvmstate *V
 				seq[sname]++
 			}
 
-			for _, subres := range subresult {
-				result += subres
+			for _, sname := range sortedKeys(subresult) {
+				result += subresult[sname]
 				result += "\t\t}\n"
 			}
 
@@ -1012,8 +1012,8 @@ func (bmach *Bondmachine) Dot(conf *Config, prefix string, vm *VM, oldvmstate *V
 			seq[sname]++
 		}
 
-		for _, subres := range subresult {
-			result += subres
+		for _, sname := range sortedKeys(subresult) {
+			result += subresult[sname]
 			result += "\t}\n"
 		}
 
@@ -1066,4 +1066,14 @@ func (bmach *Bondmachine) GetUsedOpcodes() []string {
 	}
 	sort.Strings(result)
 	return result
+}
+
+// sortedKeys returns the keys of m in increasing order
+func sortedKeys(m map[string]string) []string {
+	keys := make([]string, 0, len(m))
+	for k := range m {
+		keys = append(keys, k)
+	}
+	sort.Strings(keys)
+	return keys
 }
